@@ -6,7 +6,7 @@ all-false, every enum constant, unknown attribute numbers)."""
 import uuid as uuidlib
 
 NAMES = ["", "a", ".text", "héllo", "日本語", "x\0y", "𝔘", "name with space",
-         "<>,", "é" * 20]
+         "<>,", "é" * 20, "\ufeffbom", "\ufeff"]
 U64 = [0, 1, 2**64 - 1, 2**63, 255, 4096]
 I64 = [0, -1, 1, -2**63, 2**63 - 1, 1000]
 
